@@ -44,6 +44,7 @@ type Pkg struct {
 	Swagger    *openapi3.Swagger
 	BasePathFlag string
 	Discr      map[string]*values.DiscrInfo
+	Schemes    []Scheme // security schemes of the spec, sorted by name
 	Base       string // base path the router serves under (read from the generated router)
 }
 
@@ -57,6 +58,14 @@ func normName(s string) string {
 		}
 		return -1
 	}, s)
+}
+
+// Scheme is one security scheme of the spec as far as the transport needs it to inject a credential.
+type Scheme struct {
+	ID     string
+	In     string // query | header | "" (http bearer)
+	Name   string
+	Bearer bool
 }
 
 // SetBase records the base path of a registered package.
@@ -166,6 +175,17 @@ func (p *Pkg) loadSpec() {
 		return
 	}
 	p.Swagger = sw
+	var ids []string
+	for id := range sw.Components.SecuritySchemes {
+		ids = append(ids, id)
+	}
+	sort.Strings(ids)
+	for _, id := range ids {
+		if ss := sw.Components.SecuritySchemes[id]; ss != nil && ss.Value != nil {
+			v := ss.Value
+			p.Schemes = append(p.Schemes, Scheme{ID: id, In: v.In, Name: v.Name, Bearer: v.Type == "http"})
+		}
+	}
 	p.Discr = map[string]*values.DiscrInfo{}
 	for name, ref := range sw.Components.Schemas {
 		sc := ref.Value
